@@ -217,7 +217,8 @@ def _field_reconstruct(subtype, baseclass, baseshape, basetype):
     return subtype.__new__(subtype, data, grid)
 
 def _unwrap(arg):
-    if isinstance(arg, Field):
+    # Only new-style fields wrap an array; an old-style Field *is* the array (its `.data` is the raw buffer).
+    if isinstance(arg, NewStyleField):
         return arg.data
 
     if isinstance(arg, list):
@@ -267,7 +268,7 @@ class NewStyleField(Field, np.lib.mixins.NDArrayOperatorsMixin):
         kwargs = _unwrap(kwargs)
 
         if out:
-            kwargs['out'] = tuple(x.data if is_field(x) else x for x in out)
+            kwargs['out'] = _unwrap(out)
 
         result = getattr(ufunc, method)(*inputs, **kwargs)
 
